@@ -128,6 +128,9 @@ func buildPred(c *Case) *predCase {
 				case strings.HasPrefix(tp.Constraint, "pkgnum:"):
 					p, _ := strconv.Atoi(strings.TrimPrefix(tp.Constraint, "pkgnum:"))
 					ct = Named(p, "Num")
+				case strings.HasPrefix(tp.Constraint, "pkgiface:"):
+					p, _ := strconv.Atoi(strings.TrimPrefix(tp.Constraint, "pkgiface:"))
+					ct = Named(p, "I")
 				case tp.Constraint == "method":
 					ct = Named(-1, "LocalC")
 				}
